@@ -4,6 +4,7 @@ import (
 	"errors"
 	"fmt"
 	"math"
+	"strings"
 	"reflect"
 	"sort"
 	"testing"
@@ -230,6 +231,9 @@ func check(c Case) (vk.Outcome, error) {
 			}
 		} else {
 			got = xslices.CompactInPlaceFunc(in, eq)
+			if g2 := xslices.CompactInPlace(append([]int{}, c.In...)); len(g2) != len(want) {
+				return out, viol(c, "CompactInPlace = %v, want %d items", g2, len(want))
+			}
 		}
 		if !eqInts(ids(got), want) {
 			return out, viol(c, "kept ids %v want %v", ids(got), want)
@@ -494,6 +498,18 @@ func check(c Case) (vk.Outcome, error) {
 				return out, viol(c, "Difference = %v want %v", g, wantD)
 			}
 		}
+		if len(sets) > 0 && sets[0] != nil { // the Set convenience methods
+			cp := xmaps.SetFromSlice(c.In2[0])
+			cp.Add(99)
+			if !cp.Contains(99) || cp.Contains(98) || len(cp) != len(sets[0])+1 {
+				return out, viol(c, "Set.Add/Contains")
+			}
+			cp.Remove(99)
+			cp.Remove(98)
+			if cp.Contains(99) || len(cp) != len(sets[0]) {
+				return out, viol(c, "Set.Remove")
+			}
+		}
 		for i, s := range c.In2 { // inputs untouched
 			if sets[i] != nil && len(sets[i]) != len(xmaps.SetFromSlice(s)) {
 				return out, viol(c, "an input set was modified")
@@ -715,6 +731,19 @@ func checkWithStack(c Case) error {
 		e = coded
 	}
 	w := xerrors.WithStack(e)
+	if c.B%7 == 0 { // a call stack deeper than the 64-frame buffer WithStack fills at a time
+		var deep func(n int) error
+		deep = func(n int) error {
+			if n == 0 {
+				return xerrors.WithStack(e)
+			}
+			return deep(n - 1)
+		}
+		w = deep(150)
+		if c.A%6 != 3 && c.A%6 != 4 && strings.Count(w.Error(), "checkWithStack") < 100 {
+			return viol(c, "a 150-frame deep WithStack renders only %d of its frames", strings.Count(w.Error(), "checkWithStack"))
+		}
+	}
 	if w == nil {
 		return viol(c, "WithStack(non-nil) = nil")
 	}
